@@ -1,10 +1,150 @@
 (* C17 - text components: property theorems only.  Model: Model/C17.v; proofs: Proofs/C17*.v *)
 From Coq Require Import List NArith ZArith.
-From GoMC Require Import Base.Bytes Base.Dec Gen.Consts Model.C05 Model.C17 Proofs.C17.
+From GoMC Require Import Base.Bytes Base.Dec Gen.Consts Model.C05 Model.C17
+  Proofs.C17 Proofs.C17_rt Proofs.C17_wire Proofs.C17_top.
 Import ListNotations.
 Open Scope N_scope.
 
-Theorem C17_accepts_nbt_string : forall s, of_nbt (TStr s) = Some (text_msg s).
-Proof. exact accepts_string. Qed.
+(* tie to the translated tag ids of package nbt *)
+Theorem C17_tag_ids :
+  (idByte, idShort, idInt, idLong, idFloat, idDouble, idByteArray, idString, idList, idCompound,
+   idIntArray, idLongArray, idEnd) = (1, 2, 3, 4, 5, 6, 7, 8, 9, 10, 11, 12, 0).
+Proof. exact tag_ids. Qed.
 
-Print Assumptions C17_accepts_nbt_string.
+(* ---- round trips on the tree level: EVERY component, both forms.  norm identifies a bare string
+   argument with the text-only component it decodes to and is the identity otherwise. *)
+Theorem C17_nbt_rt : forall m, of_nbt (to_nbt m) = Some (norm m).
+Proof. intros m. apply nbt_tree_rt. Qed.
+Theorem C17_json_rt : forall m, of_json (to_json m) = Some (norm m).
+Proof. exact json_tree_rt. Qed.
+Theorem C17_norm_id : forall m, no_bare m = true -> norm m = m.
+Proof. exact norm_id. Qed.
+Theorem C17_norm_no_bare : forall m, no_bare (norm m) = true.
+Proof. exact norm_no_bare. Qed.
+
+(* ---- the binary layer: the reader written from the NBT grammar inverts the textbook encoder on
+   every well-formed tree, consumes exactly the encoding and leaves what follows untouched *)
+Theorem C17_reader_inverts_encoder : forall t rest, wf_tag t = true ->
+  dec_net (enc_net t ++ rest) = Some (t, rest).
+Proof. exact dec_net_enc. Qed.
+
+(* ---- the wire image of Message.WriteTo is ONE well-formed network-format value, a compound with
+   exactly the expected keys; Message.ReadFrom of it returns the component and leaves the rest.
+   Guard msg_ok: strings < 2^15 bytes, lists < 2^31, and no argument list mixing strings and
+   components (the known finding C17.nbt.mixed-args, refuted below without the guard). *)
+Theorem C17_wire_wellformed_partial : forall m rest, msg_ok m = true ->
+  wf_tag (to_nbt m) = true /\
+  dec_net (wire m ++ rest) = Some (TComp (fields_of (is_nil (m_translate m)) m), rest) /\
+  map fst (fields_of (is_nil (m_translate m)) m) = expected_keys (is_nil (m_translate m)) m.
+Proof.
+  intros m rest H. split; [apply wf_to_nbt; exact H|]. split; [apply wire_wf; exact H | apply wire_keys].
+Qed.
+Theorem C17_wire_rt_partial : forall m rest, msg_ok m = true ->
+  msg_read (wire m ++ rest) = Some (norm m, rest).
+Proof. exact wire_rt. Qed.
+Theorem C17_wire_rt_refuted : exists m, homog m = false /\ msg_read (wire m) <> Some (norm m, []).
+Proof. exact wire_rt_mixed_refuted. Qed.
+Theorem C17_forms_agree_partial : forall m, msg_ok m = true ->
+  match msg_read (wire m) with Some (x, _) => Some x | None => None end = of_json (to_json m).
+Proof. exact forms_agree. Qed.
+
+(* ---- accepted shapes: bare string, list (of strings, of components), compound (the round trips) *)
+Theorem C17_accepts_nbt : forall s l ms rest, str_ok s = true ->
+  msg_read (enc_net (TStr s) ++ rest) = Some (text_msg s, rest) /\
+  of_nbt (TList idString (map TStr l)) = Some (Msg [] style0 None [] [] (map text_msg l)) /\
+  of_nbt (TList idCompound (map (fun m => TComp (fields_of true m)) ms))
+    = Some (Msg [] style0 None [] [] (map norm ms)).
+Proof.
+  intros s l ms rest H. split; [apply accepts_nbt_string_wire; exact H|].
+  split; [apply accepts_nbt_strings | apply accepts_nbt_list].
+Qed.
+Theorem C17_accepts_json : forall s l ms,
+  of_json (JStr s) = Some (text_msg s) /\
+  of_json (JArr (map JStr l)) = Some (Msg [] style0 None [] [] (map text_msg l)) /\
+  of_json (JArr (map to_json ms)) = Some (Msg [] style0 None [] [] (map norm ms)).
+Proof.
+  intros s l ms. split; [apply accepts_json_string|].
+  split; [apply accepts_json_strings | apply accepts_json_list].
+Qed.
+
+(* ---- chat.Type header: VarInt id, sender, flag, optional target; any following bytes untouched *)
+Theorem C17_type_rt_partial : forall id sender target rest, in_sw 32 id -> msg_ok sender = true ->
+  match target with Some t => msg_ok t = true | None => True end ->
+  type_read (type_write id sender target ++ rest)
+  = Some (id, norm sender, match target with Some t => Some (norm t) | None => None end, rest).
+Proof. exact type_rt. Qed.
+
+(* ---- plain rendering: one left-to-right pass that deletes every occurrence of a code of the
+   library's table and nothing else *)
+Theorem C17_strip_removes : forall a c bb, code_lookup c fmt_code <> None ->
+  strip (a ++ [sect1; sect2; c] ++ bb) = strip a ++ strip bb.
+Proof. exact strip_removes. Qed.
+Theorem C17_strip_keeps : forall s, code_free s = true -> strip s = s.
+Proof. exact strip_keeps. Qed.
+Theorem C17_strip_length : forall s, (length (strip s) + 3 * count_codes s = length s)%nat.
+Proof. exact strip_length. Qed.
+(* the pass is single: a code can be formed by juxtaposition (as in the vanilla client's own
+   stripFormatting); "no code survives" is NOT claimed *)
+Theorem C17_strip_code_free_refuted : exists s, code_free (strip s) = false.
+Proof. exact strip_survivor. Qed.
+
+(* ---- translation arguments are substituted in order *)
+Theorem C17_sprintf_subst : forall ps (args : list farg), lit_clean ps = true ->
+  count_args ps = length args -> sprintf (render_fmt ps) args = ROk (subst ps (map snd args)).
+Proof. exact sprintf_subst. Qed.
+Theorem C17_clear_translate : forall tbl t st h key args ps outs,
+  key <> [] -> assoc key tbl = render_fmt ps -> lit_clean ps = true ->
+  count_args ps = length args -> Forall2 (arg_plain tbl) args outs ->
+  clear_string tbl (Msg t st h key args []) = ROk (strip t ++ subst ps outs).
+Proof. exact clear_translate. Qed.
+Theorem C17_clear_text_extra : forall tbl t st h e outs,
+  Forall2 (fun m s => clear_string tbl m = ROk s) e outs ->
+  clear_string tbl (Msg t st h [] [] e) = ROk (strip t ++ concat outs).
+Proof. exact clear_extra. Qed.
+
+(* ---- rendering never panics: every component, every translation table *)
+Theorem C17_clear_total : forall tbl m, clear_string tbl m <> RCrash.
+Proof. exact clear_string_nc. Qed.
+Theorem C17_ansi_total : forall tbl m, ansi_string tbl m <> RCrash.
+Proof. exact ansi_string_nc. Qed.
+
+(* ---- non-vacuity *)
+Definition ex_msg : msg :=
+  Msg [104;105] (mkStyle true false false false false [] [114;101;100] [] (Some ([97], [98])))
+      (Some ([115], text_msg [104])) [107;50] [AM (text_msg [120]); AM (text_msg [121])]
+      [Msg [] style0 None [107;48] [] []].
+Example C17_ex_ok : msg_ok ex_msg = true /\ no_bare ex_msg = true.
+Proof. split; vm_compute; reflexivity. Qed.
+Example C17_ex_type : in_sw 32 300 /\ type_read (type_write 300 ex_msg (Some (text_msg [116])))
+                                      = Some (300%Z, ex_msg, Some (text_msg [116]), []).
+Proof. split; [unfold in_sw; simpl; split; [discriminate|reflexivity] | vm_compute; reflexivity]. Qed.
+Example C17_ex_clear :
+  clear_string [([107;50], [97;32;37;115;32;98;32;37;115])] ex_msg
+  = ROk [104;105; 97;32;120;32;98;32;121].
+Proof. vm_compute. reflexivity. Qed.
+Example C17_ex_fmt : lit_clean [PLit [97;32]; PArg; PLit [32;98;32]; PArg] = true
+  /\ render_fmt [PLit [97;32]; PArg; PLit [32;98;32]; PArg] = [97;32;37;115;32;98;32;37;115].
+Proof. split; reflexivity. Qed.
+
+Print Assumptions C17_tag_ids.
+Print Assumptions C17_nbt_rt.
+Print Assumptions C17_json_rt.
+Print Assumptions C17_norm_id.
+Print Assumptions C17_norm_no_bare.
+Print Assumptions C17_reader_inverts_encoder.
+Print Assumptions C17_wire_wellformed_partial.
+Print Assumptions C17_wire_rt_partial.
+Print Assumptions C17_wire_rt_refuted.
+Print Assumptions C17_forms_agree_partial.
+Print Assumptions C17_accepts_nbt.
+Print Assumptions C17_accepts_json.
+Print Assumptions C17_type_rt_partial.
+Print Assumptions C17_strip_removes.
+Print Assumptions C17_strip_keeps.
+Print Assumptions C17_strip_length.
+Print Assumptions C17_strip_code_free_refuted.
+Print Assumptions C17_sprintf_subst.
+Print Assumptions C17_clear_translate.
+Print Assumptions C17_clear_text_extra.
+Print Assumptions C17_clear_total.
+Print Assumptions C17_ansi_total.
